@@ -6,13 +6,17 @@ MC      MC_Stream: frames of body sizes 0..3 (3 > MaxBody = 2: refused), every c
         inbox of length <= 4 x deadline position x {stream, datagram}.  Non-vacuity: with ReadFullSem = FALSE (one Read taken
         for the whole body) the run MUST fail.
         MC_Exchange: 3 clients (one resend), 2 receive buffers, all interleavings of Send/Recv/Decode/Release/Handle/Reply/
-        ClientRecv, VIEW hiding history: NoMixing.  Non-vacuity: with Swapped = TRUE (Release before Decode) it MUST fail.
+        ClientRecv, VIEW hiding history; requests of different sizes, buffers with a length: NoMixing (the handler sees every
+        octet of its client's request).  Non-vacuity: with Swapped = TRUE (Release before Decode) and with KeepLen = TRUE (the
+        released buffer keeps the length of the last datagram) it MUST fail.
 GEN     Gen_Stream: the MC behaviours laid over the real sizes {12, 13, 255, 256, 257, 512, 4096, 65535} (+ 65536: refused):
         chunkings over the meaningful offsets of each frame, end of stream at each of them, a write failing at each of them
         -> `exchange replay` through Conn.ReadMsgHeader / Read / ReadMsg / Write / WriteMsg and, on a real server over an
         in-memory listener, readTCP (seen through a DecorateReader) and response.Write / WriteMsg (also two handler goroutines
         writing on one connection).  Reply-ID vectors through Client.ExchangeWithConn on stream and datagram fakes (simulated
-        deadline; a few with a real one) and Client.ExchangeContext on real loopback sockets.
+        deadline; a few with a real one), Client.ExchangeContext on real loopback sockets, and ExchangeWithConn over a real socket
+        of every transport KIND the spec names (Stream.KindRules): tcp, unix stream, the two wrapped in another conn type, udp,
+        unixgram, wrapped udp, unixpacket (both rules admitted); a kind the OS refuses is counted as skipped.
 TV      `exchange record`: N in {8, 64} concurrent clients against a real UDP loopback server (ReadFromSessionUDP + buffer
         pool), an in-memory PacketConn server (pool) and TCP servers (in-memory and loopback); the handler snapshots the
         request, waits until later packets were received, snapshots again -> Trace_Exchange.
@@ -62,6 +66,9 @@ def mc_all(ctx):
     r = mc(ctx, "MC_Exchange", {"Swapped": "TRUE"}, must_pass=False)
     if r.ok or "Invariant Inv is violated" not in r.out:
         raise vp.Infra("non-vacuity: MC_Exchange with Release before Decode must violate NoMixing:\n" + r.out[-800:])
+    r = mc(ctx, "MC_Exchange", {"KeepLen": "TRUE"}, must_pass=False)
+    if r.ok or "Invariant Inv is violated" not in r.out:
+        raise vp.Infra("non-vacuity: MC_Exchange with a released buffer keeping the last datagram's length must violate NoMixing:\n" + r.out[-800:])
 
 
 def extra_sizes(ctx):
